@@ -54,6 +54,10 @@ class Hooks(object):
     def should_inline(self, I, name, fn):
         return True
 
+    def on_cond(self, I, st, inst, c):
+        """A value is about to decide a branch / switch / select (for rules that ask whether a path consulted some input)."""
+        pass
+
     def snprintf_may_fail(self, I, st, inst, args, snap):
         """Can this snprintf call return a negative value?  POSIX: EOVERFLOW when the rendering would be longer than INT_MAX, which
         takes a precision or a field width in the conversion string (or a %s argument of that length).  Default: a string literal
@@ -402,6 +406,35 @@ class Interp(object):
             if sa is not None and sa[1] == 1 and sa[2] == 0 and sa[0] in st.conds:
                 return st.conds[sa[0]]
         return None
+
+    def cond_atoms(self, st, c, out=None, depth=0):
+        """Base atoms of the terms a boolean-like value was computed from (through comparisons and their combinations)."""
+        from .terms import base_atoms
+        if out is None:
+            out = set()
+        if isinstance(c, IntV):
+            cond = self.cond_of(st, c)
+            if cond is None:
+                base_atoms(c.lin, out)
+            else:
+                self._cond_atoms(st, cond, out, depth)
+        elif isinstance(c, PtrV) and c.off is not None:
+            base_atoms(c.off, out)
+        return out
+
+    def _cond_atoms(self, st, cond, out, depth):
+        from .terms import base_atoms
+        if depth > 6 or not isinstance(cond, tuple):
+            return
+        for x in cond[1:]:
+            if isinstance(x, (IntV, PtrV)):
+                self.cond_atoms(st, x, out, depth + 1)
+            elif isinstance(x, Lin):
+                base_atoms(x, out)
+            elif isinstance(x, tuple):
+                self._cond_atoms(st, x, out, depth + 1)
+            elif isinstance(x, str) and cond[0] == 'nz':
+                out.add(x)
 
     def neg(self, cond):
         if cond[0] == 'not':
@@ -1622,6 +1655,7 @@ class Interp(object):
             if not inst.a:
                 return self.goto(st, inst.d['succ'][0])
             c = self.val(st, inst.a[0])
+            self.h.on_cond(self, st, inst, c)
             cond = self.cond_of(st, c)
             if cond is None:
                 if isinstance(c, IntV):
@@ -1666,6 +1700,7 @@ class Interp(object):
             return 'end'
         if op == 'switch':
             v = self.val(st, inst.a[0])
+            self.h.on_cond(self, st, inst, v)
             if not isinstance(v, IntV):
                 v = self.fresh_int(st, 32, 'sw')
             cases = inst.d['cases']
@@ -1755,6 +1790,7 @@ class Interp(object):
             raise Unmodelled('phi in the middle of a block')
         if op == 'select':
             c = self.val(st, inst.a[0])
+            self.h.on_cond(self, st, inst, c)
             cond = self.cond_of(st, c)
             if cond is None and isinstance(c, IntV):
                 # a flag that is not the result of a comparison (a bool loaded from memory, truncated): constant or "non-zero"
